@@ -7,6 +7,7 @@ import (
 	"crypto/tls"
 	"crypto/x509"
 	"crypto/x509/pkix"
+	"errors"
 	"fmt"
 	"io"
 	"net"
@@ -24,8 +25,10 @@ import (
 
 	"connectrpc.com/conformance/internal"
 	conformancev1 "connectrpc.com/conformance/internal/gen/proto/go/connectrpc/conformance/v1"
+	"connectrpc.com/conformance/internal/gen/proto/go/connectrpc/conformance/v1/conformancev1connect"
 	"golang.org/x/net/http2"
 	"golang.org/x/net/http2/h2c"
+	"google.golang.org/protobuf/proto"
 	"google.golang.org/protobuf/reflect/protoreflect"
 )
 
@@ -34,7 +37,9 @@ func init() {
 	verifKinds["c12.matrix"] = verifC12Matrix
 	verifKinds["c12.render"] = verifC12Render
 	verifKinds["c12.timeouts"] = verifC12Timeouts
-	verifKinds["c12.live"] = verifC12LiveKind
+	verifKinds["c12.wire"] = verifC12LiveKind
+	verifKinds["c12.events"] = verifC12Events
+	verifKinds["c12.live"] = verifC12Server
 }
 
 // ---- recording printer: keeps format and arguments, never the rendered text ----
@@ -538,7 +543,7 @@ func TestVerifConsts(t *testing.T) {
 	}
 }
 
-// ---- c12.live: the same record sent by a real client over a real listener ----
+// ---- c12.wire: the same record sent by a real client over a real listener to referenceServerChecks ----
 // mode: 0 HTTP/1.1 plain, 1 HTTP/1.1 TLS, 2 HTTP/1.1 TLS + client certificate, 3 HTTP/2 TLS,
 // 4 HTTP/2 TLS + client certificate, 5 HTTP/2 plain (h2c, prior knowledge).
 // ProtoMajor, req.TLS, header canonicalisation, query parsing, body and trailers are then what
@@ -550,6 +555,8 @@ type verifC12Live struct {
 	plain   *httptest.Server
 	secure  *httptest.Server
 	clients [6]*http.Client
+
+	noCert, withCert *tls.Config
 }
 
 var (
@@ -602,15 +609,10 @@ func verifC12LiveSetup() (*verifC12Live, error) {
 			verifC12LiveErr = err
 			return
 		}
-		env.clients[0] = &http.Client{Transport: &http.Transport{DisableCompression: true}}
-		env.clients[1] = &http.Client{Transport: &http.Transport{DisableCompression: true, TLSClientConfig: noCert.Clone()}}
-		env.clients[2] = &http.Client{Transport: &http.Transport{DisableCompression: true, TLSClientConfig: withCert.Clone()}}
-		env.clients[3] = &http.Client{Transport: &http2.Transport{DisableCompression: true, TLSClientConfig: noCert.Clone()}}
-		env.clients[4] = &http.Client{Transport: &http2.Transport{DisableCompression: true, TLSClientConfig: withCert.Clone()}}
-		env.clients[5] = &http.Client{Transport: &http2.Transport{DisableCompression: true, AllowHTTP: true,
-			DialTLSContext: func(ctx context.Context, network, addr string, _ *tls.Config) (net.Conn, error) {
-				return (&net.Dialer{}).DialContext(ctx, network, addr)
-			}}}
+		for mode := range env.clients {
+			env.clients[mode] = verifC12NewClient(mode, noCert, withCert)
+		}
+		env.noCert, env.withCert = noCert, withCert
 		verifC12LiveEnv = env
 	})
 	return verifC12LiveEnv, verifC12LiveErr
@@ -626,18 +628,13 @@ func verifC12LiveKind(args []vsx) vsx {
 	if mode < 0 || mode > 5 {
 		return vL(vS("bad-case"))
 	}
-	r := verifC12Decode(args[1])
-	// records that this client cannot put on the wire as they are: not cases (the shrinker skips them)
-	chunked := r.method == http.MethodPost || r.method == http.MethodPut || r.method == http.MethodPatch
-	if r.method == "" || (r.trailers > 0 && r.bodyEmpty && !chunked) {
+	if len(args[1].l) != 22 {
 		return vL(vS("bad-case"))
 	}
-	for i := range r.h {
-		for _, v := range r.h[i] {
-			if i < 15 && v != strings.TrimSpace(v) {
-				return vL(vS("bad-case"))
-			}
-		}
+	r := verifC12Decode(args[1])
+	// records that this client cannot put on the wire as they are: not cases (the shrinker skips them)
+	if verifC12Unsendable(r, mode >= 3) {
+		return vL(vS("bad-case"))
 	}
 	var called, hasConnect, hasGRPC bool
 	var timeout *time.Duration
@@ -676,18 +673,16 @@ func verifC12LiveKind(args []vsx) vsx {
 	if enc := query.Encode(); enc != "" {
 		target += "?" + enc
 	}
-	var body io.Reader
+	req, err := http.NewRequestWithContext(context.Background(), r.method, target, nil)
+	if err != nil {
+		return vErr("live-request")
+	}
 	if !r.bodyEmpty || r.trailers > 0 {
 		content := "x"
 		if r.bodyEmpty {
 			content = ""
 		}
-		// not a *strings.Reader: unknown length, so HTTP/1.1 uses chunked encoding (needed for trailers)
-		body = io.MultiReader(strings.NewReader(content))
-	}
-	req, err := http.NewRequestWithContext(context.Background(), r.method, target, body)
-	if err != nil {
-		return vErr("live-request")
+		verifC12SetBody(req, content)
 	}
 	for i, n := range verifC12Names {
 		if len(r.h[i]) > 0 {
@@ -700,16 +695,21 @@ func verifC12LiveKind(args []vsx) vsx {
 			req.Trailer["X-Trailer-"+strconv.Itoa(i)] = []string{"v"}
 		}
 	}
-	resp, err := env.clients[mode].Do(req)
+	client := env.clients[mode]
+	if mode >= 3 && r.trailers > 0 {
+		client = verifC12NewClient(mode, env.noCert, env.withCert) // see verifC12NewClient
+		defer client.CloseIdleConnections()
+	}
+	resp, err := client.Do(req)
 	if err != nil {
-		// the client refused to send it (invalid header value, te other than trailers on HTTP/2, ...)
+		// the client refused to send it (invalid header value, ...)
 		return vL(vS("bad-case"))
 	}
 	respBody, _ := io.ReadAll(resp.Body)
 	_ = resp.Body.Close()
 	select {
 	case <-done:
-	case <-time.After(10 * time.Second):
+	case <-time.After(30 * time.Second):
 		return vErr("live-timeout")
 	}
 	if !called {
@@ -742,4 +742,560 @@ func verifC12LiveKind(args []vsx) vsx {
 		tns = &v
 	}
 	return vL(vS(prefix), vL(kinds...), opt(tns), vBool(hasConnect), vBool(hasGRPC), opt(echo))
+}
+
+// records a real client cannot put on the wire as they are (or that the HTTP server itself refuses before any
+// handler runs): not cases.  HTTP/2 allows no te other than "trailers".
+func verifC12Unsendable(r verifC12Req, http2Mode bool) bool {
+	chunked := r.method == http.MethodPost || r.method == http.MethodPut || r.method == http.MethodPatch
+	if r.method == "" || (r.trailers > 0 && r.bodyEmpty && !chunked) {
+		return true
+	}
+	for i := range r.h {
+		for _, v := range r.h[i] {
+			if i < 15 && v != strings.TrimSpace(v) {
+				return true
+			}
+		}
+	}
+	if http2Mode && !(len(r.h[4]) == 0 || (len(r.h[4]) == 1 && r.h[4][0] == "trailers")) {
+		return true
+	}
+	return false
+}
+
+// the client transports of the live kinds (index = mode); a factory, because a request with trailers over HTTP/2
+// gets a connection of its own: when the server answers before it has read the whole request (no test name, or
+// the RPC handler closed the body), the client's late trailers arrive for a stream the server has already
+// closed, which Go's HTTP/2 server treats as a connection error (GOAWAY) - that must not hit the NEXT request.
+func verifC12NewClient(mode int, noCert, withCert *tls.Config) *http.Client {
+	plainDial := func(ctx context.Context, network, addr string, _ *tls.Config) (net.Conn, error) {
+		return (&net.Dialer{}).DialContext(ctx, network, addr)
+	}
+	switch mode {
+	case 0, 6:
+		return &http.Client{Transport: &http.Transport{DisableCompression: true}}
+	case 1, 7:
+		return &http.Client{Transport: &http.Transport{DisableCompression: true, TLSClientConfig: noCert.Clone()}}
+	case 2:
+		return &http.Client{Transport: &http.Transport{DisableCompression: true, TLSClientConfig: withCert.Clone()}}
+	case 3:
+		return &http.Client{Transport: &http2.Transport{DisableCompression: true, TLSClientConfig: noCert.Clone()}}
+	case 4:
+		return &http.Client{Transport: &http2.Transport{DisableCompression: true, TLSClientConfig: withCert.Clone()}}
+	default:
+		return &http.Client{Transport: &http2.Transport{DisableCompression: true, AllowHTTP: true, DialTLSContext: plainDial}}
+	}
+}
+
+// the body of a live request: unknown length (chunked on HTTP/1.1, needed for trailers) and replayable, so that
+// the transport may re-send a request the server provably has not processed (stream above a GOAWAY's last id)
+func verifC12SetBody(req *http.Request, content string) {
+	req.Body = io.NopCloser(io.MultiReader(strings.NewReader(content)))
+	req.ContentLength = -1
+	req.GetBody = func() (io.ReadCloser, error) {
+		return io.NopCloser(io.MultiReader(strings.NewReader(content))), nil
+	}
+}
+
+// ---- a printer that may be written to by several goroutines ----
+
+type verifC12SyncPrinter struct {
+	mu   sync.Mutex
+	msgs []verifC12Msg
+}
+
+func (p *verifC12SyncPrinter) Printf(msg string, args ...any) { p.PrefixPrintf("", msg, args...) }
+
+func (p *verifC12SyncPrinter) PrefixPrintf(prefix, msg string, args ...any) {
+	p.mu.Lock()
+	defer p.mu.Unlock()
+	p.msgs = append(p.msgs, verifC12Msg{prefix, msg, args})
+}
+
+func (p *verifC12SyncPrinter) mark() int {
+	p.mu.Lock()
+	defer p.mu.Unlock()
+	return len(p.msgs)
+}
+
+func (p *verifC12SyncPrinter) since(mark int) []verifC12Msg {
+	p.mu.Lock()
+	defer p.mu.Unlock()
+	return append([]verifC12Msg(nil), p.msgs[mark:]...)
+}
+
+var _ internal.Printer = (*verifC12SyncPrinter)(nil)
+
+// prefix and kinds of a batch of messages (all must carry the same prefix)
+func verifC12Kinds(msgs []verifC12Msg) (string, []vsx, bool) {
+	kinds := make([]vsx, len(msgs))
+	prefix := ""
+	for i, m := range msgs {
+		kinds[i] = verifC12Kind(m)
+		if i == 0 {
+			prefix = m.prefix
+		} else if m.prefix != prefix {
+			return "", nil, false
+		}
+	}
+	return prefix, kinds, true
+}
+
+func verifC12Opt(p *int64) vsx {
+	if p == nil {
+		return vL()
+	}
+	return vL(vI(*p))
+}
+
+// ---- c12.events: overlapping requests on ONE wrapped handler; the inner handler parks on a channel ----
+// ((0 request) | (1 index) ...): (0 r) starts a request in its own goroutine and waits until it has
+// reached the inner handler (or returned without reaching it); (1 i) lets the inner handler of the i-th
+// started request return and waits until that request has returned.  Exactly one request is running
+// at any time, so what is printed during an event belongs to that event.
+
+type verifC12Parked struct {
+	entered, release, finished chan struct{}
+	rec                        *httptest.ResponseRecorder
+	open                       bool
+	hasConnect, hasGRPC        bool
+	timeout                    *int64
+	echo                       *int64
+	panicked                   bool
+}
+
+type verifC12ParkKey struct{}
+
+func verifC12Events(args []vsx) vsx {
+	pr := &verifC12SyncPrinter{}
+	inner := http.HandlerFunc(func(_ http.ResponseWriter, req *http.Request) {
+		st, _ := req.Context().Value(verifC12ParkKey{}).(*verifC12Parked)
+		if st == nil {
+			return
+		}
+		_, st.hasConnect = req.Header["Connect-Timeout-Ms"]
+		_, st.hasGRPC = req.Header["Grpc-Timeout"]
+		if t, ok := req.Context().Value(timeoutContextKey{}).(time.Duration); ok {
+			v := int64(t)
+			st.timeout = &v
+		}
+		st.echo = createRequestInfo(req.Context(), req.Header, nil, nil).TimeoutMs
+		close(st.entered)
+		<-st.release
+	})
+	handler := referenceServerChecks(inner, pr)
+	var started []*verifC12Parked
+	cleanup := func() {
+		for _, st := range started {
+			if st.open {
+				st.open = false
+				close(st.release)
+			}
+			select {
+			case <-st.finished:
+			case <-time.After(30 * time.Second):
+			}
+		}
+	}
+	defer cleanup()
+	out := make([]vsx, 0, len(args[0].l))
+	for _, ev := range args[0].l {
+		if len(ev.l) != 2 {
+			return vL(vS("bad-case"))
+		}
+		switch ev.l[0].i {
+		case 0:
+			if len(ev.l[1].l) != 22 {
+				return vL(vS("bad-case"))
+			}
+			st := &verifC12Parked{entered: make(chan struct{}), release: make(chan struct{}), finished: make(chan struct{}),
+				rec: httptest.NewRecorder(), open: true}
+			req := verifC12Decode(ev.l[1]).build()
+			req = req.WithContext(context.WithValue(req.Context(), verifC12ParkKey{}, st))
+			mark := pr.mark()
+			started = append(started, st)
+			go func() {
+				defer close(st.finished)
+				defer func() {
+					if r := recover(); r != nil {
+						st.panicked = true
+					}
+				}()
+				handler.ServeHTTP(st.rec, req)
+			}()
+			reached := false
+			select {
+			case <-st.entered:
+				reached = true
+			case <-st.finished:
+			case <-time.After(30 * time.Second):
+				return vErr("events-timeout")
+			}
+			msgs := pr.since(mark)
+			if !reached {
+				st.open = false
+				if st.panicked {
+					return vCrash()
+				}
+				res := st.rec.Result()
+				body, _ := io.ReadAll(res.Body)
+				wrote := strings.Contains(string(body), "invalid_argument") || res.Header.Get("Grpc-Status") == "3" ||
+					res.Trailer.Get("Grpc-Status") == "3" || strings.Contains(strings.ToLower(string(body)), "grpc-status: 3") ||
+					st.rec.Header().Get(http.TrailerPrefix+"Grpc-Status") == "3"
+				if wrote && len(msgs) == 0 {
+					out = append(out, vL(vI(0), vL(vS("rejected"))))
+				} else {
+					out = append(out, vL(vI(0), vL(vS("not-called"), vBool(wrote), vInt(len(msgs)))))
+				}
+				continue
+			}
+			prefix, kinds, ok := verifC12Kinds(msgs)
+			if !ok {
+				return vErr("mixed-prefix")
+			}
+			out = append(out, vL(vI(0), vL(vS(prefix), vL(kinds...), verifC12Opt(st.timeout), vBool(st.hasConnect), vBool(st.hasGRPC),
+				verifC12Opt(st.echo))))
+		case 1:
+			i := int(ev.l[1].i)
+			if ev.l[1].k != 'i' || i < 0 || i >= len(started) || !started[i].open {
+				return vL(vS("bad-case"))
+			}
+			st := started[i]
+			mark := pr.mark()
+			st.open = false
+			close(st.release)
+			select {
+			case <-st.finished:
+			case <-time.After(30 * time.Second):
+				return vErr("events-timeout")
+			}
+			if st.panicked {
+				return vCrash()
+			}
+			prefix, kinds, ok := verifC12Kinds(pr.since(mark))
+			if !ok {
+				return vErr("mixed-prefix")
+			}
+			out = append(out, vL(vI(1), vS(prefix), vL(kinds...)))
+		default:
+			return vL(vS("bad-case"))
+		}
+	}
+	return vL(out...)
+}
+
+// ---- c12.live: real clients against the servers that createServer builds (reference mode) ----
+// mode: 0 HTTP/1.1 plain, 1 HTTP/1.1 TLS, 2 HTTP/1.1 TLS + client certificate, 3 HTTP/2 TLS,
+// 4 HTTP/2 TLS + client certificate, 5 HTTP/2 plain (h2c, prior knowledge), 6 HTTP/1.1 plain to the
+// h2c server, 7 HTTP/1.1 over TLS to the HTTP/2 server.
+// procedure: 0 Unary, 1 ServerStream, 2 ClientStream, 3 BidiStream, 4 IdempotentUnary.
+// Nothing of the handler chain is replaced: the only addition is an outermost wrapper (inside the h2c
+// upgrade handler, which does not return per request) that reports when a request has been handled
+// completely, so that the feedback written after the RPC handler returned is collected too.
+
+type verifC12Srv struct {
+	pr   *verifC12SyncPrinter
+	url  string
+	done chan string
+}
+
+type verifC12ServerEnv struct {
+	servers [6]*verifC12Srv // H1 plain, H1 TLS, H1 TLS+cert, H2 plain (h2c), H2 TLS, H2 TLS+cert
+	clients [8]*http.Client
+	target  [8]int
+	counter int
+
+	noCert, withCert *tls.Config
+}
+
+var (
+	verifC12SrvOnce sync.Once
+	verifC12SrvEnv  *verifC12ServerEnv
+	verifC12SrvErr  error
+)
+
+const verifC12IDHeader = "X-Verif-Request-Id"
+
+var verifC12Procedures = [5]string{
+	conformancev1connect.ConformanceServiceUnaryProcedure,
+	conformancev1connect.ConformanceServiceServerStreamProcedure,
+	conformancev1connect.ConformanceServiceClientStreamProcedure,
+	conformancev1connect.ConformanceServiceBidiStreamProcedure,
+	conformancev1connect.ConformanceServiceIdempotentUnaryProcedure,
+}
+
+func verifC12StartServer(version conformancev1.HTTPVersion, creds *conformancev1.TLSCreds, clientCert []byte) (*verifC12Srv, error) {
+	srv := &verifC12Srv{pr: &verifC12SyncPrinter{}, done: make(chan string, 64)}
+	req := &conformancev1.ServerCompatRequest{
+		Protocol:      conformancev1.Protocol_PROTOCOL_CONNECT,
+		HttpVersion:   version,
+		UseTls:        creds != nil,
+		ServerCreds:   creds,
+		ClientTlsCert: clientCert,
+	}
+	server, _, err := createServer(req, "127.0.0.1:0", "", "", true, srv.pr, nil)
+	if err != nil {
+		return nil, err
+	}
+	std, ok := server.(*stdHTTPServer)
+	if !ok {
+		return nil, errors.New("not a std server")
+	}
+	report := func(next http.Handler) http.Handler {
+		return http.HandlerFunc(func(w http.ResponseWriter, r *http.Request) {
+			id := r.Header.Get(verifC12IDHeader)
+			defer func() {
+				select {
+				case srv.done <- id:
+				default:
+				}
+			}()
+			next.ServeHTTP(w, r)
+		})
+	}
+	if version == conformancev1.HTTPVersion_HTTP_VERSION_2 && creds == nil {
+		// h2c.NewHandler(handler): its exported field Handler is the chain createServer built
+		field := reflect.ValueOf(std.svr.Handler).Elem().FieldByName("Handler")
+		inner, ok := field.Interface().(http.Handler)
+		if !ok || !field.CanSet() {
+			return nil, errors.New("h2c handler layout")
+		}
+		field.Set(reflect.ValueOf(report(inner)))
+	} else {
+		std.svr.Handler = report(std.svr.Handler)
+	}
+	go func() { _ = server.Serve() }()
+	scheme := "http"
+	if creds != nil {
+		scheme = "https"
+	}
+	srv.url = scheme + "://" + server.Addr()
+	return srv, nil
+}
+
+func verifC12ServerSetup() (*verifC12ServerEnv, error) {
+	verifC12SrvOnce.Do(func() {
+		env := &verifC12ServerEnv{}
+		fail := func(err error) { verifC12SrvErr = err }
+		serverCert, serverKey, err := internal.NewServerCert()
+		if err != nil {
+			fail(err)
+			return
+		}
+		clientCert, clientKey, err := internal.NewClientCert()
+		if err != nil {
+			fail(err)
+			return
+		}
+		creds := &conformancev1.TLSCreds{Cert: serverCert, Key: serverKey}
+		h1, h2 := conformancev1.HTTPVersion_HTTP_VERSION_1, conformancev1.HTTPVersion_HTTP_VERSION_2
+		specs := []struct {
+			v     conformancev1.HTTPVersion
+			creds *conformancev1.TLSCreds
+			cert  []byte
+		}{{h1, nil, nil}, {h1, creds, nil}, {h1, creds, clientCert}, {h2, nil, nil}, {h2, creds, nil}, {h2, creds, clientCert}}
+		for i, sp := range specs {
+			srv, err := verifC12StartServer(sp.v, sp.creds, sp.cert)
+			if err != nil {
+				fail(err)
+				return
+			}
+			env.servers[i] = srv
+		}
+		noCert, err := internal.NewClientTLSConfig(serverCert, nil, nil)
+		if err != nil {
+			fail(err)
+			return
+		}
+		withCert, err := internal.NewClientTLSConfig(serverCert, clientCert, clientKey)
+		if err != nil {
+			fail(err)
+			return
+		}
+		for mode := range env.clients {
+			env.clients[mode] = verifC12NewClient(mode, noCert, withCert)
+		}
+		env.noCert, env.withCert = noCert, withCert
+		env.target = [8]int{0, 1, 2, 4, 5, 3, 3, 4}
+		verifC12SrvEnv = env
+	})
+	return verifC12SrvEnv, verifC12SrvErr
+}
+
+// requests whose answer is a decodable unary response (same predicate as C12_Model.echo_observable): a Connect
+// unary POST of an empty proto message or a gRPC-Web POST of one empty enveloped message, uncompressed, and
+// no timeout header that connect-go would still find (none sent, or the announced protocol is the one whose
+// header the checks remove)
+func verifC12EchoCandidate(proc int, r verifC12Req) (grpcWeb, ok bool) {
+	if (proc != 0 && proc != 4) || r.method != http.MethodPost || r.trailers != 0 || len(r.h[0]) != 1 {
+		return false, false
+	}
+	announced := ""
+	if len(r.h[10]) == 1 {
+		announced = r.h[10][0]
+	}
+	switch r.h[0][0] {
+	case "application/proto":
+		return false, len(r.h[3]) == 0 && r.bodyEmpty && (len(r.h[5]) == 0 || announced == "1")
+	case "application/grpc-web", "application/grpc-web+proto":
+		return true, len(r.h[1]) == 0 && !r.bodyEmpty && (len(r.h[6]) == 0 || announced == "2" || announced == "3")
+	}
+	return false, false
+}
+
+func verifC12Server(args []vsx) vsx {
+	env, err := verifC12ServerSetup()
+	if err != nil {
+		return vErr("server-setup")
+	}
+	mode, proc := int(args[0].i), int(args[1].i)
+	if args[0].k != 'i' || args[1].k != 'i' || mode < 0 || mode > 7 || proc < 0 || proc > 4 {
+		return vL(vS("bad-case"))
+	}
+	srv := env.servers[env.target[mode]]
+	env.counter++
+	suffix := "~" + strconv.Itoa(env.counter)
+	out := make([]vsx, 0, len(args[2].l))
+	for n, a := range args[2].l {
+		if len(a.l) != 22 {
+			return vL(vS("bad-case"))
+		}
+		r := verifC12Decode(a)
+		if verifC12Unsendable(r, mode >= 3 && mode <= 5) {
+			return vL(vS("bad-case"))
+		}
+		query := url.Values{}
+		if len(r.h[15]) > 0 {
+			query["encoding"] = r.h[15]
+		}
+		if len(r.h[16]) > 0 {
+			query["compression"] = r.h[16]
+		}
+		target := srv.url + verifC12Procedures[proc]
+		if enc := query.Encode(); enc != "" {
+			target += "?" + enc
+		}
+		ctx, cancel := context.WithTimeout(context.Background(), 30*time.Second)
+		defer cancel()
+		req, err := http.NewRequestWithContext(ctx, r.method, target, nil)
+		if err != nil {
+			return vErr("live-request")
+		}
+		if !r.bodyEmpty || r.trailers > 0 {
+			content := "\x00\x00\x00\x00\x00" // one empty enveloped message
+			if r.bodyEmpty {
+				content = ""
+			}
+			verifC12SetBody(req, content)
+		}
+		for i, name := range verifC12Names {
+			if len(r.h[i]) > 0 {
+				req.Header[name] = append([]string(nil), r.h[i]...)
+			}
+		}
+		// the servers live as long as the test binary: every case gets test names of its own
+		if vals := req.Header["X-Test-Case-Name"]; len(vals) > 0 {
+			for i, v := range vals {
+				if v != "" {
+					vals[i] = v + suffix
+				}
+			}
+		}
+		id := suffix + "." + strconv.Itoa(n)
+		req.Header.Set(verifC12IDHeader, id)
+		if r.trailers > 0 {
+			req.Trailer = http.Header{}
+			for i := 0; i < r.trailers; i++ {
+				req.Trailer["X-Trailer-"+strconv.Itoa(i)] = []string{"v"}
+			}
+		}
+		mark := srv.pr.mark()
+		client := env.clients[mode]
+		if mode >= 3 && mode <= 5 && r.trailers > 0 {
+			client = verifC12NewClient(mode, env.noCert, env.withCert) // see verifC12NewClient
+			defer client.CloseIdleConnections()
+		}
+		resp, err := client.Do(req)
+		if err != nil && os.Getenv("VERIF_DEBUG") != "" {
+			fmt.Fprintf(os.Stderr, "verif: Do returned err=%v\n", err)
+		}
+		if err != nil {
+			if ctx.Err() != nil {
+				return vErr("live-timeout")
+			}
+			return vL(vS("bad-case")) // the client refused to send it
+		}
+		respBody, _ := io.ReadAll(resp.Body)
+		_ = resp.Body.Close()
+		deadline := time.After(30 * time.Second)
+		for waiting := true; waiting; {
+			select {
+			case got := <-srv.done:
+				waiting = got != id
+			case <-deadline:
+				return vErr("live-timeout")
+			}
+		}
+		msgs := srv.pr.since(mark)
+		wrote := strings.Contains(string(respBody), "invalid_argument") || resp.Header.Get("Grpc-Status") == "3" ||
+			resp.Trailer.Get("Grpc-Status") == "3" || strings.Contains(strings.ToLower(string(respBody)), "grpc-status: 3")
+		if len(msgs) == 0 && wrote && req.Header.Get("X-Test-Case-Name") == "" {
+			out = append(out, vL(vS("rejected")))
+			continue
+		}
+		prefix, kinds, ok := verifC12Kinds(msgs)
+		if !ok {
+			return vErr("mixed-prefix")
+		}
+		prefix = strings.TrimSuffix(prefix, suffix)
+		sort.SliceStable(kinds, func(i, j int) bool { return kinds[i].l[0].i < kinds[j].l[0].i })
+		echo := vL()
+		if grpcWeb, cand := verifC12EchoCandidate(proc, r); cand {
+			echo = verifC12Echo(proc, grpcWeb, resp, respBody)
+		}
+		out = append(out, vL(vS(prefix), vL(kinds...), vBool(resp.StatusCode == http.StatusHTTPVersionNotSupported), echo))
+	}
+	return vL(out...)
+}
+
+// what the RPC handler's answer says: (timeout_ms?) and whether the handler saw a Connect / gRPC timeout header
+func verifC12Echo(proc int, grpcWeb bool, resp *http.Response, body []byte) vsx {
+	if resp.StatusCode != http.StatusOK {
+		return vL(vS("undecodable"), vInt(resp.StatusCode))
+	}
+	if grpcWeb {
+		if len(body) < 5 || body[0] != 0 {
+			return vL(vS("undecodable"), vInt(resp.StatusCode))
+		}
+		n := int(body[1])<<24 | int(body[2])<<16 | int(body[3])<<8 | int(body[4])
+		if 5+n > len(body) {
+			return vErr("echo-envelope")
+		}
+		body = body[5 : 5+n]
+	}
+	var payload *conformancev1.ConformancePayload
+	if proc == 4 {
+		msg := &conformancev1.IdempotentUnaryResponse{}
+		if err := proto.Unmarshal(body, msg); err != nil {
+			return vErr("echo-unmarshal")
+		}
+		payload = msg.GetPayload()
+	} else {
+		msg := &conformancev1.UnaryResponse{}
+		if err := proto.Unmarshal(body, msg); err != nil {
+			return vErr("echo-unmarshal")
+		}
+		payload = msg.GetPayload()
+	}
+	info := payload.GetRequestInfo()
+	if info == nil {
+		return vErr("echo-no-request-info")
+	}
+	var hasConnect, hasGRPC bool
+	for _, h := range info.GetRequestHeaders() {
+		hasConnect = hasConnect || strings.EqualFold(h.GetName(), "Connect-Timeout-Ms")
+		hasGRPC = hasGRPC || strings.EqualFold(h.GetName(), "Grpc-Timeout")
+	}
+	return vL(verifC12Opt(info.TimeoutMs), vBool(hasConnect), vBool(hasGRPC))
 }
